@@ -147,12 +147,12 @@ def solve(form, display=True, log=False, params={}):
         index_eq = form.sense == 1
         lhs[index_eq] = form.const[index_eq]
         rhs = form.const
-        lb = form.lb
-        ub = form.ub
+        lb = form.lb.copy()
+        ub = form.ub.copy()
+        lb[vtype == 'B'] = np.maximum(lb[vtype == 'B'], 0)
+        ub[vtype == 'B'] = np.minimum(ub[vtype == 'B'], 1)
         lb[lb == -np.inf] = -cp.COPT.INFINITY
         ub[ub == np.inf] = cp.COPT.INFINITY
-        lb[vtype == 'B'] = 0
-        ub[vtype == 'B'] = 1
         m.loadMatrix(c, csc_matrix(A), lhs, rhs, lb, ub, vtype)
 
         if isinstance(form, SOCProg):
